@@ -1720,13 +1720,59 @@ func (d *DFA) tryDetectAccelerationWithCache(state *State, cache *DFACache) {
 
 	var exitBytes []byte
 	if cache != nil && cache.stride > 0 {
-		exitBytes = DetectAccelerationFromFlat(state.ID(), cache.flatTrans, cache.stride, d.byteClasses)
+		exitBytes = d.soundAccelExitBytes(state.ID(), cache)
 	}
 	if len(exitBytes) > 0 {
 		state.SetAccelBytes(exitBytes)
 	} else {
 		state.MarkAccelChecked()
 	}
+}
+
+// soundAccelExitBytes returns the 1-3 exit bytes of an accelerable state, or nil.
+//
+// Acceleration replaces the per-byte loop by a memchr for the exit bytes and
+// skips everything in between, so (unlike DetectAccelerationFromFlat) it
+// requires that
+//   - every transition of the state is known: an uncached transition is not a
+//     self-loop, it may lead anywhere;
+//   - every byte that is not an exit byte loops back to this very state: a
+//     transition to the dead state is an exit too (the search has to stop
+//     there, not skip over it);
+//   - the exit bytes are ALL bytes of the exit classes, not one representative
+//     per class. With (?:[a-zA-Z]+[0-9]+|foo) the letter loop was "accelerated"
+//     to a memchr for '0' alone, so "fooAN6" ended at "foo".
+func (d *DFA) soundAccelExitBytes(sid StateID, cache *DFACache) []byte {
+	stride := cache.stride
+	ft := cache.flatTrans
+	var exit [256]bool
+	exitClasses := 0
+	for classIdx := 0; classIdx < stride; classIdx++ {
+		offset := safeOffset(sid, classIdx)
+		if offset >= len(ft) || ft[offset] == InvalidState {
+			return nil
+		}
+		if ft[offset] == sid {
+			continue
+		}
+		exit[classIdx] = true
+		if exitClasses++; exitClasses > 3 {
+			return nil
+		}
+	}
+	if exitClasses == 0 {
+		return nil
+	}
+	exitBytes := make([]byte, 0, 3)
+	for b := 0; b < 256; b++ {
+		if exit[d.byteToClass(byte(b))] {
+			if len(exitBytes) == 3 {
+				return nil
+			}
+			exitBytes = append(exitBytes, byte(b))
+		}
+	}
+	return exitBytes
 }
 
 // accelerate uses SIMD to skip ahead in the input when in an accelerable state.
